@@ -11,6 +11,12 @@ Schemas are built from a JSON spec, scenarios are lists of JSON steps, so every 
            | {"op": "assign", "path": "c.ri", "value": ...}
            | {"op": "insert", "path": "c", "how": append|insert|setitem|extend|iadd|assign, "as": dict|config,
               "item": {...}}
+           | {"op": "held", "path": "c", "index": 1, "edit": {...}, "call": validate|collect|load_tree-empty|
+              load_tree-sibling|loads-empty:<fmt>, "kind": "schema@root"}
+             (an item the list holds is invalidated in place - schema validator now fails, required list cleared,
+             switched-off item with unset required fields switched on - then the call on the ROOT must raise
+             ValidationError / return a non-empty list: held items count, for ListField(Schema) and
+             ListField(config type) alike)
            | {"op": "reinsert", "path": "c", "how": pop-append|setitem-other|slice-reorder|extend-proxy|...,
               "edit": {"kind": "assign"|"clear", "key": k, "value": v} | null}
              (item lst[1] - already held, or popped first, or held by the same list of a second configuration of
@@ -322,6 +328,60 @@ def run_step(world, step):
             raise KeyError(how)
         checked = (block, lambda: holder[0][idx], step["item"], "item(%s)" % lfield["t"],
                    "%s[%d]" % (step["path"], idx), True)
+    elif op == "held":
+        # an item the list holds is invalidated IN PLACE; then a whole-configuration operation must notice
+        try:
+            lst, block = _navigate(cfg, world.spec, step["path"])
+        except (TypeError, IndexError):
+            return "setup-failed", []
+        if lst is None or len(lst) < 2:
+            return "setup-failed", []
+        it, edit = lst[step.get("index", 1)], step.get("edit")
+        try:
+            if edit and edit["kind"] == "assign":
+                setattr(it, edit["key"], copy.deepcopy(edit["value"]))
+            elif edit and edit["kind"] == "clear":
+                getattr(it, edit["key"]).clear()
+        except ValidationError:
+            return "setup-failed", []
+        what = step["call"]
+        opname = "held:" + what
+        result = []
+        if what == "validate":
+            call = cfg.validate
+        elif what == "collect":
+            call = lambda: result.append(cfg.validate(collect_errors=True))     # noqa: E731
+        elif what == "load_tree-empty":
+            call = lambda: cfg.load_tree({})                                    # noqa: E731
+        elif what == "load_tree-sibling":
+            call = lambda: cfg.load_tree({"od": 5})                             # noqa: E731
+        elif what.startswith("loads-empty:"):
+            fmt = what.split(":")[1]
+            content = ConfigFormat.get(fmt).dumps(cfg, {})
+            call = lambda: cfg.loads(content, fmt)                              # noqa: E731
+        else:
+            raise KeyError(what)
+        del world.log[:]
+        findings = []
+        try:
+            call()
+            signalled = bool(result and result[0])
+        except ValidationError:
+            signalled = True
+        except Exception as exc:    # noqa: BLE001
+            signalled = True
+            findings.append({"ob": OB["exc"], "wkey": "%s:%s" % (opname, type(exc).__name__),
+                             "what": "%s raised %s (%s) instead of a ValidationError" % (opname, type(exc).__name__, exc)})
+        if not signalled:
+            out = []
+            check_config(world.spec, cfg, None, ALL_ITEMS, "root", "", out)
+            for fd in out[:1]:
+                fd["wkey"] = "held-item-invalid:%s/%s" % (step.get("kind", "?"), what)
+                fd["what"] = "%s %s although an item the list holds is out of order: %s" % (
+                    what, "returned no errors" if what == "collect" else "returned normally", fd["what"])
+                findings.append(fd)
+        findings.extend(_collect_equiv(world, step))
+        return ("raised" if signalled else "ok"), findings
     elif op == "reinsert":
         try:
             lst, block = _navigate(cfg, world.spec, step["path"])
@@ -774,6 +834,29 @@ def _plan(tier):
                 if "foreign" in how:
                     step["tree"] = tree
                 yield ("reinsert", shape, how, ename), spec, [_load_step("load_tree", tree), step]
+    # H: items the list HOLDS become invalid in place; whole-configuration operations must notice
+    for shape in REINSERT_SHAPES:
+        spec, setup_tree, path = reinsert_case(shape)
+        kind = "%s@%s" % ({"listS": "schema", "listT": "configtype"}[shape[-1]],
+                          "root" if len(shape) == 1 else ("nested" if shape[0] in ("sub", "ctype") else "outer-item"))
+        item_tree = _innermost_lists(setup_tree, shape)[0][0]
+        for ename, disabled_item, edit in REINSERT_EDITS:
+            for appended in (False, True):
+                tree = setup_tree
+                new_item = item_tree
+                if disabled_item:
+                    new_item = {"enabled": False}
+                    if not appended:
+                        tree = copy.deepcopy(setup_tree)
+                        _innermost_lists(tree, shape)[0][1] = {"enabled": False}
+                for call in HELD_CALLS:
+                    steps = [_load_step("load_tree", tree)]
+                    if appended:
+                        steps.append({"op": "insert", "path": path, "how": "append", "as": "config" if not
+                                      disabled_item else "dict", "item": new_item})
+                    steps.append({"op": "held", "path": path, "index": -1 if appended else 1, "edit": edit,
+                                  "call": call, "kind": kind})
+                    yield ("held", shape, ename, appended, call), spec, steps
     # C: histories
     spec, ops = _history_ops()
     seqs = [[a] for a in range(len(ops))] + [[a, b] for a in range(len(ops)) for b in range(len(ops))]
@@ -781,6 +864,7 @@ def _plan(tier):
         yield ("history", tuple(seq)), spec, [ops[i] for i in seq]
 
 
+HELD_CALLS = ["validate", "collect", "load_tree-empty", "load_tree-sibling"] + ["loads-empty:" + f for f in FORMATS]
 REINSERT_SHAPES = [("listS",), ("listT",), ("sub", "listS"), ("ctype", "listT"), ("listS", "listT"), ("listT", "listS")]
 REINSERT_HOWS = ["pop-append", "pop-insert", "append-held", "insert-held", "setitem-other", "setitem-self",
                  "slice-same", "slice-reorder", "slice-tuple", "extend-held", "iadd-held", "assign-list",
@@ -846,7 +930,9 @@ def rac(tier: str, seed: int) -> dict:
               "pickle, load(file); priors fresh / after a complete load / after a failed load; 6 insertion forms x "
               "dict/config items on 6 list shapes; re-insertion of held / popped item objects edited in place: %d "
               "forms x %d edits (cross-field validator, schema validator, required list/dict emptied in place, "
-              "switched-off item with unset required fields switched on) x 6 list shapes; histories of <= 3 operations out of 18 on one schema.  quick: "
+              "switched-off item with unset required fields switched on) x 6 list shapes; the same edits on an item the list "
+              "HOLDS (loaded or appended) followed by validate / validate(collect) / load_tree({}) / load_tree of a "
+              "sibling key / loads of an empty document in 5 formats; histories of <= 3 operations out of 18 on one schema.  quick: "
               "full flag cross on depth <= 1, 3 flag variants and the two innermost levels on depth 2, all formats "
               "on depth <= 1 and one rotating format on the innermost level of depth 2, histories of length <= 2 exhaustive + 300 sampled "
               "of length 3; thorough: full crosses until the budget is used" % (len(REINSERT_HOWS), len(REINSERT_EDITS)),
